@@ -24,7 +24,7 @@ RULE = (
     "pauses, spawn a grandchild, spawned via nested sync scope / update, re-spawn from its "
     "cancellation handler}, optionally one disposable whose clean-up raises / suspends, body in {return, raise, "
     "externally cancelled at any quiescent point}, with/without an outer scope; all "
-    "interleavings; plus spawn outside any scope; non-trivial = at least one spawned task was "
+    "interleavings, for <= 2 tasks also with two events landing in one loop iteration; plus spawn outside any scope; non-trivial = at least one spawned task was "
     "still running when the body ended, or a task failed"
 )
 ASSUMPTIONS = [
@@ -92,6 +92,14 @@ def programs(tier: str):
                     if not outer and 1 <= k <= 2:
                         for d in (1, 2):
                             yield _prog(combo, ending, cancels, outer, d)
+    # two environment events landing in the same loop iteration (a spawned task ends in the very
+    # iteration in which the body ends): the exit runs before the group has processed the task's end
+    for k in (1, 2):
+        for combo in itertools.combinations_with_replacement(range(len(SPAWNS)), k):
+            for ending in ("return", "raise"):
+                p = _prog(combo, ending, 0, False)
+                p["batch"] = 2
+                yield p
     extra_k = kmax + 1
     pool = [0, 1, 3, 4, 5] if tier == "quick" else [1, 2, 4, 5]
     for combo in itertools.combinations_with_replacement(pool, extra_k):
@@ -285,7 +293,7 @@ def execute(program, ch: Chooser) -> Result:  # noqa: C901, PLR0912
         return _stream(program, ch)
     if program.get("detached"):
         return _detached(program, ch)
-    r = Run(program, ch, cancels=program["cancels"])
+    r = Run(program, ch, cancels=program["cancels"], batch=program.get("batch", 1))
     viols: list[dict] = []
     waited: list = []
 
